@@ -177,7 +177,7 @@ func ruleH5(c *Ctx) {
 var _ = types.Identical
 
 func init() {
-	register("V7", "iterator instructions are balanced in the compiler: every compiler function emits as many ITERPOP as ITERPUSH instructions (the for statement and each comprehension clause pop the iterator they pushed; early exits rely on the VM's deferred drain)", 1, ruleV7)
+	register("V7", "iterator instructions are balanced in the compiler: every construct-level compiler function (a node dispatcher, a function it calls, or a recursive one), with its private helpers inlined, emits as many ITERPOP as ITERPUSH instructions (the for statement and each comprehension clause pop the iterator they pushed; early exits rely on the VM's deferred drain)", 1, ruleV7)
 }
 
 func ruleV7(c *Ctx) {
@@ -186,19 +186,39 @@ func ruleV7(c *Ctx) {
 		return
 	}
 	push, pop := oi.byName["ITERPUSH"], oi.byName["ITERPOP"]
-	np, nq := 0, 0
-	var at token.Pos
+	type cnt struct{ push, pop int }
+	direct := map[*ssa.Function]*cnt{}
+	callees := map[*ssa.Function][]*ssa.Function{}
+	calledFromDispatcher := map[*ssa.Function]bool{}
+	selfRec := map[*ssa.Function]bool{}
+	at := map[*ssa.Function]token.Pos{}
+	var cfuncs []*ssa.Function
 	for _, fn := range c.P.Funcs {
 		if fnPkgPath(fn) != modPath+"/"+compilePkg {
 			continue
 		}
+		cfuncs = append(cfuncs, fn)
+		fn := fn
+		direct[fn] = &cnt{}
+		disp := isNodeDispatcher(fn)
 		eachInstr(fn, func(in ssa.Instruction) {
 			call, ok := in.(*ssa.Call)
-			if !ok || len(call.Call.Args) < 2 {
+			if !ok {
 				return
 			}
 			cal := call.Call.StaticCallee()
-			if cal == nil || !strings.HasPrefix(cal.Name(), "emit") || fnPkgPath(cal) != modPath+"/"+compilePkg {
+			if cal == nil || fnPkgPath(cal) != modPath+"/"+compilePkg {
+				return
+			}
+			if cal == fn {
+				selfRec[fn] = true
+			} else {
+				callees[fn] = append(callees[fn], cal)
+				if disp {
+					calledFromDispatcher[cal] = true
+				}
+			}
+			if !strings.HasPrefix(cal.Name(), "emit") || len(call.Call.Args) < 2 {
 				return
 			}
 			for _, a := range call.Call.Args[1:] {
@@ -213,27 +233,76 @@ func ruleV7(c *Ctx) {
 				}
 				for _, k := range ks {
 					if k == push {
-						np++
-						at = call.Pos()
+						direct[fn].push++
+						at[fn] = call.Pos()
 					}
 					if k == pop {
-						nq++
-						at = call.Pos()
+						direct[fn].pop++
+						at[fn] = call.Pos()
 					}
 				}
 			}
 		})
 	}
-	// counted over the whole package: a refactoring may put the push and the pop into different helpers
-	key := "package compile: ITERPUSH/ITERPOP emission sites"
-	switch {
-	case np == 0 && nq == 0:
-		c.anchorFail("no ITERPUSH/ITERPOP emission found in package compile")
-	case np == nq:
-		c.ok(key, c.P.Pos(at), fmt.Sprintf("%d ITERPUSH site(s), %d ITERPOP site(s)", np, nq))
-	default:
-		c.viol(key, c.P.Pos(at), fmt.Sprintf("%d ITERPUSH site(s) but %d ITERPOP site(s): a loop that completes normally leaves its iterator on the frame's iterator stack (the collection stays locked until the function returns) or pops one it did not push", np, nq))
+	isRoot := func(f *ssa.Function) bool {
+		return isNodeDispatcher(f) || calledFromDispatcher[f] || selfRec[f]
 	}
+	// counts of a construct-level function with its private helpers inlined
+	var inl func(f *ssa.Function, onStack map[*ssa.Function]bool) (int, int)
+	inl = func(f *ssa.Function, onStack map[*ssa.Function]bool) (int, int) {
+		d := direct[f]
+		if d == nil || onStack[f] {
+			return 0, 0
+		}
+		onStack[f] = true
+		defer delete(onStack, f)
+		np, nq := d.push, d.pop
+		for _, g := range callees[f] {
+			if isRoot(g) {
+				continue
+			}
+			a, b := inl(g, onStack)
+			np += a
+			nq += b
+		}
+		return np, nq
+	}
+	total := 0
+	for _, fn := range cfuncs {
+		if !isRoot(fn) && !(direct[fn].push+direct[fn].pop > 0 && len(callersInPkg(cfuncs, fn)) == 0) {
+			continue
+		}
+		np, nq := inl(fn, map[*ssa.Function]bool{})
+		if np == 0 && nq == 0 {
+			continue
+		}
+		total += np + nq
+		key := fnName(fn) + ": ITERPUSH/ITERPOP emissions"
+		pos := c.P.Pos(at[fn])
+		if at[fn] == token.NoPos {
+			pos = c.P.Pos(fn.Pos())
+		}
+		if np == nq {
+			c.ok(key, pos, fmt.Sprintf("%d ITERPUSH, %d ITERPOP (private helpers inlined)", np, nq))
+		} else {
+			c.viol(key, pos, fmt.Sprintf("%d ITERPUSH emission(s) but %d ITERPOP emission(s) in this construct (private helpers inlined): a loop that completes normally leaves its iterator on the frame's iterator stack (the collection stays locked until the function returns) or pops one it did not push", np, nq))
+		}
+	}
+	if total == 0 {
+		c.anchorFail("no ITERPUSH/ITERPOP emission found in package compile")
+	}
+}
+
+func callersInPkg(fns []*ssa.Function, f *ssa.Function) []*ssa.Function {
+	var out []*ssa.Function
+	for _, g := range fns {
+		eachInstr(g, func(in ssa.Instruction) {
+			if ci, ok := in.(ssa.CallInstruction); ok && ci.Common().StaticCallee() == f {
+				out = append(out, g)
+			}
+		})
+	}
+	return out
 }
 
 func init() {
